@@ -240,6 +240,7 @@ func watchdogFor(class string, perRun int) int {
 	}
 	return perRun
 }
+
 var confirmSem = make(chan struct{}, 4) // at most four confirmations at a time
 var jobSeq int
 var jobMu sync.Mutex
@@ -249,6 +250,7 @@ type jobResult struct {
 	stderr  string
 	crashed bool
 	hung    bool
+	slow    bool  // abandoned by the watchdog although the scheduler was still taking steps
 	lastRun int64 // seed that was running when the process died
 	hasLast bool
 }
@@ -292,6 +294,9 @@ func (b *build) runJob(job *Job, timeout time.Duration) *jobResult {
 	res.stderr = stderr.String()
 	if strings.Contains(res.stderr, "@@HANG ") {
 		res.hung = true
+	}
+	if strings.Contains(res.stderr, "@@SLOW ") {
+		res.hung, res.slow = false, true
 	}
 	if f, err := os.Open(job.Out); err == nil {
 		sc := bufio.NewScanner(f)
@@ -775,6 +780,7 @@ func cmdRun(args []string) int {
 	var outs []*Outcome
 	var tooling []string
 	deaths := 0
+	slowSkipped := 0
 	exploreStart := time.Now()
 	deadline := exploreStart.Add(time.Duration(t.Budget) * time.Second)
 	nw := runtime.NumCPU()
@@ -798,6 +804,15 @@ func cmdRun(args []string) int {
 					mu.Lock()
 					outs = append(outs, r.outs...)
 					mu.Unlock()
+					if r.slow && r.hasLast {
+						// too slow to finish within the watchdog, but not stuck: skip the seed, say so
+						mu.Lock()
+						tooling = append(tooling, fmt.Sprintf("seed %d: abandoned as too slow (the scheduler was still taking steps)", r.lastRun))
+						slowSkipped++
+						mu.Unlock()
+						from = r.lastRun + 1
+						continue
+					}
 					if !(r.hung || r.crashed) {
 						break
 					}
@@ -997,6 +1012,16 @@ func avoidFor(avoid []string, seed int64, chunk int) []string {
 	return nil
 }
 
+func countPrefix(notes []string, what string) int {
+	n := 0
+	for _, t := range notes {
+		if strings.Contains(t, what) {
+			n++
+		}
+	}
+	return n
+}
+
 func firstN(s string, n int) string {
 	if len(s) > n {
 		return s[:n] + "..."
@@ -1119,6 +1144,7 @@ func (e *evidence) finish(b *build, t tierCfg, exploreSec, wall float64, skipped
 		"build_wall_s":                      b.buildSec,
 		"runs_planned":                      t.Runs,
 		"runs_skipped_by_budget":            skippedRuns,
+		"runs_abandoned_as_too_slow":        countPrefix(tooling, "abandoned as too slow"),
 		"race_detector":                     b.race,
 		"instrumentation":                   b.instr,
 		"known_findings":                    e.Known,
